@@ -12,6 +12,13 @@ pub struct Operation {
     pub method: String,
 }
 
+const RUST_KEYWORDS: &[&str] = &[
+    "as", "break", "const", "continue", "crate", "else", "enum", "extern", "false", "fn", "for", "if", "impl", "in",
+    "let", "loop", "match", "mod", "move", "mut", "pub", "ref", "return", "self", "static", "struct", "super", "trait",
+    "true", "type", "unsafe", "use", "where", "while", "async", "await", "dyn", "abstract", "become", "box", "do",
+    "final", "macro", "override", "priv", "typeof", "unsized", "virtual", "yield", "try",
+];
+
 impl Operation {
     // Mostly for Go
     pub fn flat_package_name(&self) -> String {
@@ -19,7 +26,15 @@ impl Operation {
     }
 
     pub fn file_name(&self) -> String {
-        self.name.to_case(Case::Snake)
+        // The file name is also the name of the Rust module, so it must be a valid, non-keyword identifier.
+        let mut s = self.name.to_case(Case::Snake);
+        if RUST_KEYWORDS.contains(&s.as_str()) {
+            s.push('_');
+        }
+        if s.starts_with(|c: char| c.is_numeric()) {
+            s.insert(0, '_');
+        }
+        s
     }
 
     pub fn request_struct_name(&self) -> String {
